@@ -322,6 +322,16 @@ func c14wrappers() []c14wrapCase {
 			return
 		}},
 		{"Println(non-string) behind a wrapper", 1, func(l slog.Logger) (s c14site) { c14wrapE1(markV(&s, l)); return }},
+		{"derived log/slog handler (With) behind a wrapper", 1, func(l slog.Logger) (s c14site) {
+			sl := c14adapter(l).With("a", 1)
+			c14wrapD1(markV(&s, sl))
+			return
+		}},
+		{"derived log/slog handler (WithGroup, With) behind a wrapper", 2, func(l slog.Logger) (s c14site) {
+			sl := c14adapter(l).WithGroup("g").With("a", 1)
+			c14wrapD2(markV(&s, sl))
+			return
+		}},
 	}
 }
 
@@ -333,6 +343,8 @@ type c14case struct {
 	SkipVia string `json:"skip_via"` // "" | WithSkip | SetSkip
 	// Prior: something done before the call that the statement says cannot matter.
 	//  sibs       other WithSkip children (different counts) derived from the same parent before and after, all kept alive
+	//  parent-skip  the parent has a skip count of its own (SetSkip(2)) when WithSkip(n) derives the child
+	//  chained      parent.WithSkip(3).WithSkip(n)
 	//  built-off  the adapter / bridge / child is built while caller information is switched off; it is switched on before the call
 	Prior string `json:"prior,omitempty"`
 }
@@ -349,6 +361,10 @@ func c14run1(cas c14case) *Violation {
 		l = slog.New("parent").New("child")
 	case "default":
 		l = slog.Default()
+	case "default=child":
+		// a child logger (a plain *Entry) installed as the package default
+		l = slog.New("droot").New("dchild")
+		slog.SetDefault(l)
 	default:
 		l = slog.New("root")
 	}
@@ -390,6 +406,12 @@ func c14run1(cas c14case) *Violation {
 			if cas.Prior == "sibs" {
 				keep = append(keep, parent.WithSkip(cas.Skip+1), parent.WithSkip(0))
 			}
+			switch cas.Prior {
+			case "parent-skip":
+				parent.SetSkip(2)
+			case "chained":
+				parent = parent.WithSkip(3)
+			}
 			l = parent.WithSkip(cas.Skip)
 			conf(l)
 			if cas.Prior == "sibs" {
@@ -412,7 +434,7 @@ func c14run1(cas c14case) *Violation {
 		if ent == nil {
 			return nil
 		}
-		if ent.kind == "package" && cas.Logger != "default" {
+		if ent.kind == "package" && cas.Logger != "default" && cas.Logger != "default=child" {
 			return nil
 		}
 		env := &c14env{l: l, ctx: context.Background(), conf: conf}
@@ -537,7 +559,7 @@ func init() {
 			}
 		}
 		for _, f := range []string{"json", "logfmt", "color"} {
-			for _, lg := range []string{"root", "child", "default"} {
+			for _, lg := range []string{"root", "child", "default", "default=child"} {
 				for _, e := range c14entries() {
 					emit(c14case{Entry: e.name, Format: f, Logger: lg})
 					if e.kind == "adapter" || e.kind == "bridge" || c.Thorough() || lg == "child" {
@@ -549,6 +571,8 @@ func init() {
 						emit(c14case{Entry: wcase.name, Format: f, Logger: lg, Skip: wcase.n, SkipVia: via})
 					}
 					emit(c14case{Entry: wcase.name, Format: f, Logger: lg, Skip: wcase.n, SkipVia: "WithSkip", Prior: "sibs"})
+					emit(c14case{Entry: wcase.name, Format: f, Logger: lg, Skip: wcase.n, SkipVia: "WithSkip", Prior: "parent-skip"})
+					emit(c14case{Entry: wcase.name, Format: f, Logger: lg, Skip: wcase.n, SkipVia: "WithSkip", Prior: "chained"})
 				}
 			}
 		}
